@@ -1,5 +1,6 @@
 #!/bin/bash
-# full regression: all quick checks on the unchanged tree (must be clean), then every seeded change against the check of its property (must be caught)
+# full regression: all quick checks on the unchanged tree (must be clean), then every seeded change against the check of its property
+# (must be caught), then every property-preserving refactoring in equiv/ against the checks of the properties it touches (must be quiet)
 cd "$(dirname "$0")/.."
 rm -f replays/*.json
 fail=0
@@ -14,6 +15,13 @@ for d in seeded/S-*; do
   r=$(bin/seedcheck.py run $sid $p 2>&1 | grep -v "^ " | tail -1)
   echo "$r" | cut -c1-160
   case "$r" in *"exit=1"*) ;; *) echo "MISSED $sid"; fail=1;; esac
+done
+# property-preserving refactorings: no check may alarm (run isolated: /repo itself is untouched)
+for d in equiv/E-*; do
+  eid=$(basename $d); ps=$(python3 -c "import json;print(' '.join(json.load(open('$d/meta.json'))['properties_touched']))")
+  out=$(bin/seedcheck.py equiv $eid $ps 2>&1); rc=$?
+  echo "$out" | grep -E "^E-" | cut -c1-160
+  if [ $rc -ne 0 ]; then echo "FALSE-ALARM $eid"; echo "$out" | grep -vE "^E-" | cut -c1-400 | head -20; fail=1; fi
 done
 fi
 git -C /repo status --short | head -3
